@@ -316,6 +316,9 @@ func c07PlainSafe(s string, inFlow, isKey bool) bool {
 
 func c07StyleOK(s string, style byte, inFlow, isKey bool) bool {
 	for i := 0; i < len(s); i++ {
+		if s[i] == '\t' && style != c07Plain {
+			continue // a literal tab is allowed inside quotes
+		}
 		if s[i] < 0x20 || s[i] > 0x7e {
 			return false
 		}
